@@ -348,10 +348,123 @@ func c05CanonCmp(e ast.Expr, env map[string]string) string {
 		case token.GTR, token.GEQ:
 			return a + " " + x.Op.String() + " " + b
 		case token.LAND, token.LOR:
-			return c05CanonCmp(x.X, env) + " " + x.Op.String() + " " + c05CanonCmp(x.Y, env)
+			// operands of a pure conjunction / disjunction in sorted order
+			parts := []string{c05CanonCmp(x.X, env), c05CanonCmp(x.Y, env)}
+			sort.Strings(parts)
+			return parts[0] + " " + x.Op.String() + " " + parts[1]
 		}
 	}
 	return str(e)
+}
+
+// c05SimpleDefs collects locals of a function that are defined exactly once by
+// a call-free expression (`batchTx = batch.BatchTX`, `diff := batch.AccountDiffs[i]`,
+// `op := wire.OutPoint{...}`): such a local is just a name for that expression.
+func c05SimpleDefs(fn ast.Node) map[string]ast.Expr {
+	defs := map[string]ast.Expr{}
+	count := map[string]int{}
+	hasCall := func(e ast.Expr) bool {
+		found := false
+		ast.Inspect(e, func(n ast.Node) bool {
+			if c, ok := n.(*ast.CallExpr); ok {
+				// conversions / len / method calls inside a composite literal are fine
+				if _, lit := e.(*ast.CompositeLit); !lit {
+					_ = c
+					found = true
+				}
+			}
+			return true
+		})
+		return found
+	}
+	ast.Inspect(fn, func(n ast.Node) bool {
+		switch x := n.(type) {
+		case *ast.AssignStmt:
+			for i, l := range x.Lhs {
+				if id, ok := l.(*ast.Ident); ok && len(x.Rhs) == len(x.Lhs) {
+					count[id.Name]++
+					if !hasCall(x.Rhs[i]) {
+						defs[id.Name] = x.Rhs[i]
+					}
+				} else if ok {
+					count[id.Name] += 2
+				}
+			}
+		case *ast.ValueSpec:
+			for i, nm := range x.Names {
+				count[nm.Name]++
+				if i < len(x.Values) && !hasCall(x.Values[i]) {
+					defs[nm.Name] = x.Values[i]
+				}
+			}
+		case *ast.IncDecStmt:
+			if id, ok := x.X.(*ast.Ident); ok {
+				count[id.Name] += 2
+			}
+		}
+		return true
+	})
+	for k := range defs {
+		if count[k] != 1 {
+			delete(defs, k)
+		}
+	}
+	return defs
+}
+
+// c05Canon prints an expression with locals replaced by their simple
+// definitions / canonical names and composite-literal fields sorted.
+func c05Canon(e ast.Expr, env map[string]string, defs map[string]ast.Expr) string {
+	switch x := e.(type) {
+	case *ast.Ident:
+		if d, ok := defs[x.Name]; ok {
+			if _, isEnv := env[x.Name]; !isEnv {
+				return c05Canon(d, env, defs)
+			}
+		}
+	case *ast.CompositeLit:
+		var kv []string
+		allKV := len(x.Elts) > 0
+		for _, el := range x.Elts {
+			k, ok := el.(*ast.KeyValueExpr)
+			if !ok {
+				allKV = false
+				break
+			}
+			kv = append(kv, exprString(k.Key)+": "+c05Canon(k.Value, env, defs))
+		}
+		if allKV {
+			sort.Strings(kv)
+			return exprString(x.Type) + "{ " + strings.Join(kv, ", ") + ", }"
+		}
+	case *ast.CallExpr:
+		var args []string
+		for _, a := range x.Args {
+			args = append(args, c05Canon(a, env, defs))
+		}
+		return c05Subst(c05OneLine(exprString(x.Fun)), c05EnvWithDefs(env, defs)) + "(" + strings.Join(args, ", ") + ")"
+	}
+	return c05Subst(c05OneLine(exprString(e)), c05EnvWithDefs(env, defs))
+}
+
+// c05EnvWithDefs extends the canonical-name table by the printed simple
+// definitions (selector chains only).
+func c05EnvWithDefs(env map[string]string, defs map[string]ast.Expr) map[string]string {
+	out := map[string]string{}
+	for k, d := range defs {
+		switch d.(type) {
+		case *ast.SelectorExpr, *ast.Ident, *ast.IndexExpr:
+			out[k] = c05OneLine(exprString(d))
+		}
+	}
+	for k, v := range env {
+		out[k] = v
+	}
+	// one more pass so that chains (a = b.X; c = a.Y) resolve
+	for k, v := range out {
+		out[k] = c05Subst(v, out)
+	}
+	return out
 }
 
 // c05OneLine collapses whitespace so that a wrapped expression is one token.
@@ -425,37 +538,91 @@ func genC05Facts() {
 		fail("batchSigner.Sign / signInputMuSig2 not found")
 		return
 	}
-	hashType, inputMatch, rawTx, versionGate, lookup, loopBreak := "", "", "", "", "", "no-break"
-	// the loop that locates the account input: in Sign itself or in a
-	// same-package helper Sign calls (parameters replaced by arguments)
+	hashType, inputMatch, rawTx, versionGate, lookup, inputPick := "", "", "", "", "", ""
+	// The loop that locates the account input - in Sign itself or in a
+	// same-package helper Sign calls (parameters replaced by arguments).
+	// Recognised: `for i, in := range E.TxIn`, `for i := 0; i < len(E.TxIn); i++`
+	// and `for i := len(E.TxIn) - 1; i >= 0; i--` with E = batch.BatchTX. Which
+	// match wins ("last" / "first") follows from direction and break/return.
 	findLoop := func(fn *ast.FuncDecl, sub map[string]string) bool {
+		defs := c05SimpleDefs(fn)
+		env := c05EnvWithDefs(sub, defs)
 		found := false
-		ast.Inspect(fn, func(n ast.Node) bool {
-			rs, ok := n.(*ast.RangeStmt)
-			if !ok || c05Subst(exprString(rs.X), sub) != "batch.BatchTX.TxIn" {
-				return true
-			}
-			env := map[string]string{}
-			for k, v := range sub {
-				env[k] = v
-			}
-			if id, ok := rs.Value.(*ast.Ident); ok {
-				env[id.Name] = "in" // the name of the loop variable is immaterial
-			}
-			ast.Inspect(rs.Body, func(m ast.Node) bool {
+		scanBody := func(body *ast.BlockStmt, elem string, lenv map[string]string, forward bool) {
+			stops := false
+			ast.Inspect(body, func(m ast.Node) bool {
 				if i, ok := m.(*ast.IfStmt); ok && inputMatch == "" {
-					inputMatch = c05CanonCmp(i.Cond, env)
+					c := c05CanonCmp(i.Cond, lenv)
+					if elem != "" {
+						c = strings.ReplaceAll(c, elem, "in")
+						// re-sort the operands after the replacement
+						if parts := strings.Split(c, " == "); len(parts) == 2 {
+							sort.Strings(parts)
+							c = parts[0] + " == " + parts[1]
+						}
+					}
+					inputMatch = c
 				}
-				if b, ok := m.(*ast.BranchStmt); ok && (b.Tok == token.BREAK) {
-					loopBreak = "break"
+				if b, ok := m.(*ast.BranchStmt); ok && b.Tok == token.BREAK {
+					stops = true
 				}
 				if _, ok := m.(*ast.ReturnStmt); ok {
-					loopBreak = "break" // returning from inside the loop = first match
+					stops = true
 				}
 				return true
 			})
+			if forward != stops {
+				inputPick = "last" // forward without stop, or backward stopping at the first hit
+			} else {
+				inputPick = "first"
+			}
 			found = true
-			return false
+		}
+		ast.Inspect(fn, func(n ast.Node) bool {
+			if found {
+				return false
+			}
+			switch x := n.(type) {
+			case *ast.RangeStmt:
+				if c05Subst(exprString(x.X), env) != "batch.BatchTX.TxIn" {
+					return true
+				}
+				lenv := map[string]string{}
+				for k, v := range env {
+					lenv[k] = v
+				}
+				elem := ""
+				if id, ok := x.Value.(*ast.Ident); ok && id.Name != "_" {
+					lenv[id.Name] = "in"
+				} else if id, ok := x.Key.(*ast.Ident); ok {
+					elem = "batch.BatchTX.TxIn[" + id.Name + "]"
+				}
+				scanBody(x.Body, elem, lenv, true)
+				return false
+			case *ast.ForStmt:
+				as, ok := x.Init.(*ast.AssignStmt)
+				if !ok || len(as.Lhs) != 1 || len(as.Rhs) != 1 {
+					return true
+				}
+				id, ok := as.Lhs[0].(*ast.Ident)
+				if !ok {
+					return true
+				}
+				init := c05Subst(c05OneLine(exprString(as.Rhs[0])), env)
+				cond := ""
+				if x.Cond != nil {
+					cond = c05Subst(c05OneLine(exprString(x.Cond)), env)
+				}
+				lenTx := "len(batch.BatchTX.TxIn)"
+				forward := init == "0" && strings.Contains(cond, lenTx)
+				backward := strings.ReplaceAll(init, " ", "") == lenTx+"-1"
+				if !forward && !backward {
+					return true
+				}
+				scanBody(x.Body, "batch.BatchTX.TxIn["+id.Name+"]", env, forward)
+				return false
+			}
+			return true
 		})
 		return found
 	}
@@ -477,12 +644,13 @@ func genC05Facts() {
 			if fd == nil || fd.Body == nil || fd == sg {
 				return true
 			}
+			sgEnv := c05EnvWithDefs(nil, c05SimpleDefs(sg))
 			sub := map[string]string{}
 			i := 0
 			for _, fld := range fd.Type.Params.List {
 				for _, nm := range fld.Names {
 					if i < len(c.Args) {
-						sub[nm.Name] = c05OneLine(exprString(c.Args[i]))
+						sub[nm.Name] = c05Subst(c05OneLine(exprString(c.Args[i])), sgEnv)
 					}
 					i++
 				}
@@ -491,58 +659,56 @@ func genC05Facts() {
 			return true
 		})
 	}
-	// follow a local to the expression that defined it (one level)
-	defOf := func(e ast.Expr) ast.Expr {
-		id, ok := e.(*ast.Ident)
-		if !ok {
-			return e
-		}
-		var def ast.Expr
-		ast.Inspect(sg, func(n ast.Node) bool {
-			switch x := n.(type) {
-			case *ast.AssignStmt:
-				for i, l := range x.Lhs {
-					if li, ok := l.(*ast.Ident); ok && li.Name == id.Name && len(x.Rhs) == len(x.Lhs) {
-						def = x.Rhs[i]
-					}
-				}
-			case *ast.ValueSpec:
-				for i, nm := range x.Names {
-					if nm.Name == id.Name && i < len(x.Values) {
-						def = x.Values[i]
-					}
-				}
+	sgDefs := c05SimpleDefs(sg)
+	sgEnv := map[string]string{}
+	// the element of batch.AccountDiffs being processed is `acctDiff`
+	ast.Inspect(sg, func(n ast.Node) bool {
+		if rs, ok := n.(*ast.RangeStmt); ok && exprString(rs.X) == "batch.AccountDiffs" {
+			if id, ok := rs.Value.(*ast.Ident); ok {
+				sgEnv[id.Name] = "acctDiff"
 			}
-			return true
-		})
-		if def != nil {
-			return def
 		}
-		return e
+		return true
+	})
+	for k, d := range sgDefs {
+		if ix, ok := d.(*ast.IndexExpr); ok && exprString(ix.X) == "batch.AccountDiffs" {
+			sgEnv[k] = "acctDiff"
+		}
+	}
+	canon := func(e ast.Expr) string { return c05Canon(e, sgEnv, sgDefs) }
+	gate := func(e ast.Expr) {
+		c := c05CanonCmp(e, c05EnvWithDefs(sgEnv, sgDefs))
+		if strings.Contains(c, "acct.Version") && strings.Contains(c, "account.Version") {
+			versionGate = c
+		}
 	}
 	ast.Inspect(sg, func(n ast.Node) bool {
 		switch x := n.(type) {
 		case *ast.KeyValueExpr:
 			if k, ok := x.Key.(*ast.Ident); ok && k.Name == "HashType" {
-				hashType = exprString(defOf(x.Value))
+				hashType = canon(x.Value)
 			}
 		case *ast.CallExpr:
 			switch exprString(x.Fun) {
 			case "s.signer.SignOutputRaw":
 				if len(x.Args) >= 2 {
-					rawTx = exprString(defOf(x.Args[1]))
+					rawTx = canon(x.Args[1])
 				}
 			case "s.getAccount":
-				lookup = c05Join(x.Args, exprString)
+				if len(x.Args) == 1 {
+					lookup = canon(x.Args[0])
+				}
 			}
 		case *ast.IfStmt:
-			c := c05CanonCmp(x.Cond, nil)
-			if strings.Contains(c, "acct.Version") && strings.Contains(c, "account.Version") {
-				versionGate = c
+			gate(x.Cond)
+		case *ast.CaseClause:
+			for _, e := range x.List {
+				gate(e)
 			}
 		}
 		return true
 	})
+	loopBreak := inputPick
 	muTx, muPrev := "", ""
 	ast.Inspect(mu, func(n ast.Node) bool {
 		if c, ok := n.(*ast.CallExpr); ok && exprString(c.Fun) == "poolscript.TaprootMuSig2Sign" && len(c.Args) >= 6 {
@@ -569,7 +735,7 @@ func genC05Facts() {
 	l.p("def taprootHashType : String := %q", tapHash)
 	l.p("def signerAccountLookup : String := %q", lookup)
 	l.p("def signerInputMatch : String := %q", inputMatch)
-	l.p("def signerInputLoop : String := %q", loopBreak)
+	l.p("def signerInputPick : String := %q", loopBreak)
 	l.p("def signerVersionGate : String := %q", versionGate)
 	l.p("def signerRawTx : String := %q", rawTx)
 	l.p("def signerMuSig2Tx : String := %q", muTx)
@@ -620,83 +786,115 @@ func genC05Facts() {
 		return
 	}
 	// appended modifier constructor calls: unconditional per switch case,
-	// conditional ones with their condition, and the ones after the switch
+	// conditional ones with their condition, and the ones after the switch.
+	// The loop over batch.AccountDiffs may live in StorePendingBatch itself
+	// or in a helper method of the storer it calls; an "appended modifier" is
+	// any `account.*` constructor call handed to an append(...).
 	var recreated, closed, common []string
 	var recreatedCond []string
 	storerEnv := map[string]string{}
+	var storerDefs map[string]ast.Expr
+	modArgs := func(c *ast.CallExpr) []string {
+		if exprString(c.Fun) != "append" {
+			return nil
+		}
+		var out []string
+		for _, a := range c.Args[1:] {
+			if ac, ok := a.(*ast.CallExpr); ok && strings.HasPrefix(exprString(ac.Fun), "account.") {
+				out = append(out, c05Canon(a, storerEnv, storerDefs))
+			}
+		}
+		return out
+	}
+	appended := func(s ast.Stmt) []string {
+		if as, ok := s.(*ast.AssignStmt); ok && len(as.Rhs) == 1 {
+			if c, ok := as.Rhs[0].(*ast.CallExpr); ok {
+				return modArgs(c)
+			}
+		}
+		return nil
+	}
 	collect := func(stmts []ast.Stmt, uncond *[]string, cond *[]string) {
 		for _, s := range stmts {
-			switch x := s.(type) {
-			case *ast.AssignStmt:
-				if len(x.Rhs) == 1 {
-					if c, ok := x.Rhs[0].(*ast.CallExpr); ok && exprString(c.Fun) == "append" && len(c.Args) > 1 &&
-						exprString(c.Args[0]) == "modifiers" {
-						for _, a := range c.Args[1:] {
-							*uncond = append(*uncond, c05Subst(c05OneLine(exprString(a)), storerEnv))
-						}
-					}
-				}
-			case *ast.IfStmt:
+			if x, ok := s.(*ast.IfStmt); ok {
 				if c05IsErrCheck(x.Cond) {
 					continue
 				}
-				if cond == nil {
-					*uncond = append(*uncond, "<if "+c05OneLine(exprString(x.Cond))+">")
+				var inner []string
+				for _, s2 := range x.Body.List {
+					inner = append(inner, appended(s2)...)
+				}
+				if len(inner) == 0 {
 					continue
 				}
-				var inner []string
-				collectInner := func(ss []ast.Stmt) {
-					for _, s2 := range ss {
-						if as, ok := s2.(*ast.AssignStmt); ok && len(as.Rhs) == 1 {
-							if c, ok := as.Rhs[0].(*ast.CallExpr); ok && exprString(c.Fun) == "append" {
-								for _, a := range c.Args[1:] {
-									inner = append(inner, c05Subst(c05OneLine(exprString(a)), storerEnv))
-								}
-							}
+				if cond == nil {
+					*uncond = append(*uncond, "<if "+c05CanonCmp(x.Cond, c05EnvWithDefs(storerEnv, storerDefs))+">")
+					continue
+				}
+				*cond = append(*cond, "(\""+c05CanonCmp(x.Cond, c05EnvWithDefs(storerEnv, storerDefs))+"\", "+leanStrList(inner)+")")
+				continue
+			}
+			*uncond = append(*uncond, appended(s)...)
+		}
+	}
+	scanFn := func(fn *ast.FuncDecl) bool {
+		done := false
+		ast.Inspect(fn, func(n ast.Node) bool {
+			rs, ok := n.(*ast.RangeStmt)
+			if !ok || exprString(rs.X) != "batch.AccountDiffs" {
+				return !done
+			}
+			storerDefs = c05SimpleDefs(fn)
+			if id, ok := rs.Value.(*ast.Ident); ok {
+				storerEnv[id.Name] = "diff"
+			}
+			for _, s := range rs.Body.List {
+				if as, ok := s.(*ast.AssignStmt); ok && len(as.Rhs) == 1 && len(as.Lhs) >= 1 {
+					if c, ok := as.Rhs[0].(*ast.CallExpr); ok && exprString(c.Fun) == "s.getAccount" {
+						if id, ok := as.Lhs[0].(*ast.Ident); ok {
+							storerEnv[id.Name] = "acct"
 						}
 					}
 				}
-				collectInner(x.Body.List)
-				*cond = append(*cond, "(\""+c05CanonCmp(x.Cond, storerEnv)+"\", "+leanStrList(inner)+")")
 			}
-		}
+			for _, s := range rs.Body.List {
+				if sw, ok := s.(*ast.SwitchStmt); ok && sw.Tag != nil &&
+					c05Subst(exprString(sw.Tag), storerEnv) == "diff.EndingState" {
+					for _, c := range sw.Body.List {
+						cc := c.(*ast.CaseClause)
+						names := c05Join(cc.List, exprString)
+						switch {
+						case strings.Contains(names, "OUTPUT_RECREATED"):
+							collect(cc.Body, &recreated, &recreatedCond)
+						case strings.Contains(names, "OUTPUT_FULLY_SPENT"):
+							collect(cc.Body, &closed, nil)
+						}
+					}
+				} else {
+					collect([]ast.Stmt{s}, &common, nil)
+				}
+			}
+			done = true
+			return false
+		})
+		return done
 	}
-	ast.Inspect(st, func(n ast.Node) bool {
-		rs, ok := n.(*ast.RangeStmt)
-		if !ok || exprString(rs.X) != "batch.AccountDiffs" {
+	if !scanFn(st) {
+		ast.Inspect(st, func(n ast.Node) bool {
+			c, ok := n.(*ast.CallExpr)
+			if !ok || len(recreated) > 0 {
+				return true
+			}
+			if sel, ok := c.Fun.(*ast.SelectorExpr); ok {
+				if id, ok := sel.X.(*ast.Ident); ok && id.Name == "s" {
+					if fd := findFunc(orderFiles, "batchStorer."+sel.Sel.Name); fd != nil && fd != st && fd.Body != nil {
+						scanFn(fd)
+					}
+				}
+			}
 			return true
-		}
-		if id, ok := rs.Value.(*ast.Ident); ok {
-			storerEnv[id.Name] = "diff"
-		}
-		for _, s := range rs.Body.List {
-			if as, ok := s.(*ast.AssignStmt); ok && len(as.Rhs) == 1 && len(as.Lhs) >= 1 {
-				if c, ok := as.Rhs[0].(*ast.CallExpr); ok && exprString(c.Fun) == "s.getAccount" {
-					if id, ok := as.Lhs[0].(*ast.Ident); ok {
-						storerEnv[id.Name] = "acct"
-					}
-				}
-			}
-		}
-		for _, s := range rs.Body.List {
-			if sw, ok := s.(*ast.SwitchStmt); ok && sw.Tag != nil &&
-				c05Subst(exprString(sw.Tag), storerEnv) == "diff.EndingState" {
-				for _, c := range sw.Body.List {
-					cc := c.(*ast.CaseClause)
-					names := c05Join(cc.List, exprString)
-					switch {
-					case strings.Contains(names, "OUTPUT_RECREATED"):
-						collect(cc.Body, &recreated, &recreatedCond)
-					case strings.Contains(names, "OUTPUT_FULLY_SPENT"):
-						collect(cc.Body, &closed, nil)
-					}
-				}
-			} else {
-				collect([]ast.Stmt{s}, &common, nil)
-			}
-		}
-		return false
-	})
+		})
+	}
 	if len(recreated) == 0 || len(closed) == 0 || len(common) == 0 {
 		fail("batchStorer.StorePendingBatch: modifier lists not found")
 		return
